@@ -1,5 +1,6 @@
 import ScsiVerif.Driver.Proto
 import ScsiVerif.Model.Compat
+import ScsiVerif.Std.T10
 import ScsiVerif.Gen.Commands
 import ScsiVerif.Gen.Opcodes
 import ScsiVerif.Gen.Tables
@@ -88,6 +89,9 @@ def cmdOp (toks : List String) : Option String :=
     match Cmd.initCdbLen n with
     | .ok L => pure ("ok " ++ toString L)
     | .error x => pure (showErr x)
+  | ["t10op", name] => pure (match Std.lookup Std.t10Opcodes name with | some v => "ok " ++ toString v | none => "none")
+  | ["t10sa", name] => pure (match Std.lookup Std.t10ServiceActions name with | some v => "ok " ++ toString v | none => "none")
+  | ["samstatus", name] => pure (match Std.lookup Std.samStatus name with | some v => "ok " ++ toString v | none => "none")
   | ["samlen", v] => do
     let n ← v.toNat?
     match Std.samLen n with
